@@ -260,7 +260,10 @@ class WcMachine(Machine):
         if slot["kind"] == "wc":
             what = s.choice(["ipnets", "ipnets", "ipnets", "ipnet", "line", "data", "copy",
                              "ipnets_scribble"])
-            return dict(op="wc_query", t=t, what=what, memo=self._memo_schedule(st))
+            op_ = dict(op="wc_query", t=t, what=what, memo=self._memo_schedule(st))
+            if what == "ipnets_scribble":
+                op_["how"] = s.choice(["clear", "pop", "extend", "reverse"])
+            return op_
         what = s.choice(["ipnets", "ipnets", "prefixes", "subnets", "wildcards", "ipnet", "data"])
         if slot["kind"] == "grp":
             return dict(op="grp_query", t=t, memo=self._memo_schedule(st))
@@ -704,7 +707,16 @@ class WcMachine(Machine):
             k = len(split_mask(slot["mask"])[1])
             if k <= ENUM_K and not slot.get("rejected"):
                 got = w.ipnets()
-                got.clear()
+                how = op.get("how", "clear")
+                if how == "clear" or not got:
+                    got.clear()
+                elif how == "pop":
+                    got.pop()
+                elif how == "extend":
+                    got.extend(list(got[:1]) * 2)
+                else:
+                    got.reverse()
+                    got.append(got[0])
                 self.probes["returned_list_scribbled"] += 1
             self._check_wc(w, slot, "query after the returned list was emptied")
         else:
